@@ -144,7 +144,7 @@ def build_driver():
         src_time = newest(model_vo + [os.path.join(COQ, 'Extract.v'), os.path.join(DRIVER_DIR, 'driver.ml')])
         if os.path.exists(exe) and os.path.getmtime(exe) >= src_time:
             return exe
-        coq_make(['Model/Canon.vo', 'Model/F32Eval.vo'])
+        coq_make(['Model/Canon.vo', 'Model/F32Eval.vo', 'Model/NomBits.vo', 'Model/NomBytes.vo'])
         rc, log = sh(['timeout', '600', 'coqc', '-q', '-Q', COQ, 'Ais', os.path.join(COQ, 'Extract.v')], cwd=DRIVER_DIR)
         for junk in ('Extract.vo', 'Extract.glob', 'Extract.vos', 'Extract.vok', '.Extract.aux'):
             try: os.remove(os.path.join(COQ, junk))
